@@ -68,6 +68,7 @@ func SeqProfileFor(name string, seed int64) SeqProfile {
 		p.PInsert, p.PDelete, p.PFailIns, p.PRollback = 0.5, 0.3, 0.15, 0.15
 		p.Prologue = []string{"", "block1", "sparse", "sparse", "three"}[r.Intn(5)]
 		p.Steps = 30
+		p.MaxBody = 6 // deletes and inserts alternating between blocks inside one transaction: several marker sections per block
 	case "c15": // stream: multi-block transactions, read-only and rolled-back transactions, both transports
 		p.Cols = []ColDesc{{"a", "int", "add", numRepr()}, {"s", "str", "", "string"}}
 		p.Prologue = []string{"block1", "three", "block1"}[r.Intn(3)]
